@@ -337,11 +337,12 @@ def c09(run):
     run.trusted += MSG_TRUST + ['stream values: encode / decode / compare on the implementation for keys, key sets, header maps, claim sets (struct and map forms), recipients, KDF contexts, ByteStr (CBOR, JSON, text)']
     run.assumptions += ['the bytes written for the unprotected header map decode (hypothesis of the still-verifies theorems; compared with the implementation by msgparts)',
                         'members within the decoder limits (`encodable`)']
-    D.prove(run, extra_targets=['Model/MsgWireCorr.vo', 'Model/TextCorr.vo'])
+    D.prove(run, extra_targets=['Model/MsgWireCorr.vo', 'Model/TextCorr.vo', 'Model/CwtCodecCorr.vo'])
     rc, o = D.harness_build()
     if rc != 0:
         run.broke('harness build', o[-1500:])
     else:
+        D.correspond(run, 'claims', [], reference_theorem='C09_claims_roundtrip (model of the CBOR form of cwt.Claims)')
         D.correspond(run, 'text', [], reference_theorem='C09_bytestr_text_roundtrip / C09_bytestr_json_roundtrip / C09_cosemap_*_as_cbor (model of the text and JSON forms)')
         D.correspond(run, 'msg', [], reference_theorem='C09_reencode_* (model of MarshalCBOR after UnmarshalCBOR)')
         D.correspond(run, 'msgparts', [], reference_theorem='C09_decode_encode / C09_struct_members_roundtrip (header maps, recipients, KDF contexts)')
